@@ -10,14 +10,20 @@ from verif import sh, VERIF
 tier = sys.argv[1] if len(sys.argv) > 1 else 'quick'
 ctx = verif.Ctx('C20', tier, int(os.environ.get('VERIF_SEED', '1')))
 ctx.ensure_setup()
-rows = props.c20_stream_rows(ctx)
+rows = props.c20_stream_rows(ctx) if 'nostream' not in sys.argv else '/dev/null'
 bx = ctx.build('cxx', harness=False)
 d = os.path.join(ctx.scratch, 'cs'); os.makedirs(d)
 open(os.path.join(d, 'main.cc'), 'w').write('#include <cstdio>\nFILE *out; void stream_section(const char *); void mpf_section(void);\n'
     'int main(int c, char **v) { out = fopen(v[1], "w"); if (!out) return 3; stream_section(v[2]); mpf_section(); fclose(out); return 0; }\n')
-srcs = [os.path.join(d, 'main.cc'), os.path.join(VERIF, 'harness/cxx_stream.cc'), os.path.join(VERIF, 'harness/cxx_mpf.cc')]
+srcs = [os.path.join(d, 'main.cc'), os.path.join(VERIF, 'harness/cxx_stream.cc'), os.path.join(VERIF, 'harness/cxx_mpf.cc')] + props.c20_mpf_units(ctx, os.path.join(ctx.scratch, 'cxxf'))
 exe = os.path.join(d, 'run')
-rc, out = sh(['g++', '-O0', '-w', f'-I{bx}', '-no-pie', '-o', exe] + srcs + os.environ.get('CXXSTREAM_EXTRA_OBJS', '').split() + [os.path.join(bx, '.libs/libmpirxx.a'), os.path.join(bx, '.libs/libmpir.a')], timeout=900)
+import concurrent.futures as cf
+def comp(s_):
+    o = os.path.join(d, os.path.basename(s_) + '.o'); rc, out = sh(['g++', '-O0', '-w', f'-I{bx}', '-c', s_, '-o', o], timeout=900)
+    if rc != 0: print(out[-3000:]); sys.exit(2)
+    return o
+with cf.ThreadPoolExecutor(max_workers=16) as ex: srcs = list(ex.map(comp, srcs))
+rc, out = sh(['g++', '-no-pie', '-o', exe] + srcs + os.environ.get('CXXSTREAM_EXTRA_OBJS', '').split() + [os.path.join(bx, '.libs/libmpirxx.a'), os.path.join(bx, '.libs/libmpir.a')], timeout=900)
 if rc != 0: print(out); sys.exit(2)
 tr = os.path.join(ctx.scratch, 'cs.ndjson')
 rc, out = sh([exe, tr, rows], timeout=900)
